@@ -267,6 +267,38 @@ def _read_line(fd, timeout):
     return json.loads(buf.decode().strip().splitlines()[-1])
 
 
+def _proc_state(pid):
+    try:
+        with open(f"/proc/{pid}/stat") as f:
+            return f.read().rsplit(")", 1)[1].split()[0]
+    except OSError:
+        return "?"
+
+
+def _wait_or_diagnose(fd, pids, store, soft=8.0, hard=90.0):
+    """Wait for a worker's report.  Returns ("msg", report) or ("hang", evidence).  A missing report is a
+    verdict only with STRUCTURAL evidence - an identifier is still listed as locked and every live worker is
+    asleep over repeated samples; a slow machine alone ends as HarnessError (exit 2), never as a violation."""
+    m = _read_line(fd, soft)
+    if m is not None:
+        return "msg", m
+    t_end = time.monotonic() + hard
+    asleep = 0
+    while time.monotonic() < t_end:
+        m = _read_line(fd, 1.0)
+        if m is not None:
+            return "msg", m
+        states = [_proc_state(p) for p in pids]
+        left = mp_lists_left(store)
+        if left and all(st_ in ("S", "?", "Z") for st_ in states):
+            asleep += 1
+            if asleep >= 5:
+                return "hang", {"locked": left, "worker_states": states}
+        else:
+            asleep = 0
+    raise HarnessError(f"worker did not report within {soft + hard:.0f}s and no structural evidence of a hang was found")
+
+
 def _reap(pids):
     for p in pids:
         try:
@@ -337,16 +369,19 @@ def _park_case(case, ctx):
                               f"was still parked inside its critical section", {"family": "park", "pair": case["pair"]})
             ctx.classify("park-B-rejected-in-progress")
         else:
-            mb = _read_line(b_out_r, 8)
-            if mb is None:
-                left = mp_lists_left(store)
-                ctx.violation("blocked-after-holder-resumed", f"{desc}: B did not complete within 8 s after A resumed; "
-                              f"locked lists: {left}", {"family": "park", "pair": case["pair"]})
+            kind_, mb = _wait_or_diagnose(b_out_r, pids, store)
+            if kind_ == "hang":
+                ctx.violation("blocked-after-holder-resumed", f"{desc}: B stays blocked after A resumed: {mb}",
+                              {"family": "park", "pair": case["pair"]})
+                mb = None
             ctx.classify("park-B-blocked-until-resume")
-        ma = _read_line(a_out_r, 8)
-        if ma is None:
-            ctx.violation("holder-never-returned", f"{desc}: A did not return within 8 s after being resumed",
+        kind_, ma = _wait_or_diagnose(a_out_r, pids, store)
+        if kind_ == "hang":
+            ctx.violation("holder-never-returned", f"{desc}: A stays blocked after being resumed: {ma}",
                           {"family": "park", "pair": case["pair"]})
+            ma = None
+        if ma is None:
+            pass
         elif tuple(ma["outcome"])[0] == "harness":
             raise HarnessError(f"{desc}: worker A failed: {ma}")
         elif tuple(ma["outcome"])[0] == "err" and tuple(ma["outcome"])[1] in ("ValueError", "KeyError", "AttributeError"):
@@ -407,11 +442,10 @@ def _fork_case(case, ctx):
         os.write(go_w, b"g" * len(calls))
         res = []
         for i, r in enumerate(outs):
-            m = _read_line(r, 8)
-            if m is None:
-                left = mp_lists_left(store)
+            kind_, m = _wait_or_diagnose(r, pids, store)
+            if kind_ == "hang":
                 ctx.violation("worker-never-returned", f"[forked workers] program {[conc.op_pattern(c, world) + ':' + str(c.get('pid')) for c in calls]} "
-                              f"delays {case['delays']}: worker {i} did not return within 8 s; locked lists: {left}",
+                              f"delays {case['delays']}: worker {i} stays blocked: {m}",
                               {"family": "fork", "failure": "hang"})
                 return
             if m["outcome"][0] == "harness":
